@@ -85,7 +85,7 @@ class Model:
         return self._fn("Q", lambda r: -0.25 * float(np.sum(r**2)) + 0.05 * float(np.sum(r)) - 1.0)
 
     def array(self, name, shape, seed):
-        rs = np.random.default_rng(abs(hash(name)) % (2**31) + seed)
+        rs = np.random.Generator(np.random.PCG64(abs(hash(name)) % (2**31) + seed))
         out = rs.normal(size=shape)
         for idx in np.ndindex(*shape):
             v = self.env.get(name + "_" + "_".join(str(i) for i in idx))
@@ -606,6 +606,24 @@ def _replay_cadence(cex, model, props, bad, tmp):
 def _replay_rng(cex, model, props, bad):
     cfg = cex["cfg"]
     g = CRng(model, "user", 0)
+    import numpy.random as npr
+
+    real_default_rng = npr.default_rng
+    constructed = []
+
+    def counting_default_rng(*a, **k):
+        r = CRng(model, "fresh", 1000 * (len(constructed) + 1))
+        constructed.append(r)
+        return r
+
+    npr.default_rng = counting_default_rng
+    try:
+        return _replay_rng_inner(cex, model, props, bad, cfg, g, constructed)
+    finally:
+        npr.default_rng = real_default_rng
+
+
+def _replay_rng_inner(cex, model, props, bad, cfg, g, constructed):
     if cfg.get("rng_via") == "aspire":
         from aspire.aspire import Aspire
 
@@ -625,8 +643,9 @@ def _replay_rng(cex, model, props, bad):
             a.sample_posterior(n_samples=w.N, sampler="smc", rng=g, preconditioning="none", **kw)
     else:
         w = World(cex, model, rng=g).build().run()
-    if w.rng_constructed and "C20" in props:
-        bad.append("C20: a fresh generator was constructed although the user supplied one")
+    drawn = [r for r in list(w.rng_constructed) + list(constructed) if r.used > 0]
+    if drawn and "C20" in props:
+        bad.append("C20: random draws were served by a generator the library constructed itself although the user supplied one")
     if g.used == 0 and "C20" in props:
         bad.append("C20: the user-supplied generator was never used")
-    return {"user_draws": g.used, "fresh": len(w.rng_constructed)}
+    return {"user_draws": g.used, "fresh": len(drawn)}
